@@ -16,6 +16,10 @@ for p in $props; do
   for m in selftest/mutants/$p/*.patch; do [ -f "$m" ] && echo "$p $m" >> $list; done
   if grep -q "^finding: property=$p " known_findings.txt 2>/dev/null; then echo "$p CANARY" >> $list; fi
 done
+runcheck() { # <prop> <extra args...>: the property's checker (frozen govc binary, or the Python front end)
+  p_="$1"; shift
+  if grep -q '"front_end": "python"' "/verif/props/$p_.json" 2>/dev/null; then python3-vt /verif/pyvc/pyvc.py check -prop "$p_" -tier quick "$@"; else $root/govc check -prop "$p_" -tier quick "$@"; fi
+}
 worker() {
   w=$1; wt=$root/wt$w
   git -C /repo worktree add -q --detach $wt HEAD || exit 3
@@ -24,12 +28,12 @@ worker() {
     i=$((i+1)); [ $((i % jobs)) -eq $w ] || continue
     log=$root/log.$w
     if [ "$m" = CANARY ]; then
-      GOVC_REPO=$wt GOVC_OUT=$root/out$w $root/govc check -prop $p -tier quick -timeout ${SELFTEST_TIMEOUT:-10} -no-evidence -known /dev/null > $log 2>&1; rc=$?
+      GOVC_REPO=$wt GOVC_OUT=$root/out$w runcheck $p -timeout ${SELFTEST_TIMEOUT:-10} -no-evidence -known /dev/null > $log 2>&1; rc=$?
       if [ $rc -eq 1 ]; then echo "caught   canary: known findings of $p are reported as violations when not listed"; else echo "MISSED   canary for $p (exit $rc)"; fi
       continue
     fi
     git -C $wt apply "/verif/$m" || { echo "MUTANT-DOES-NOT-APPLY $m"; continue; }
-    GOVC_REPO=$wt GOVC_OUT=$root/out$w $root/govc check -prop $p -tier quick -timeout ${SELFTEST_TIMEOUT:-10} -no-evidence > $log 2>&1; rc=$?
+    GOVC_REPO=$wt GOVC_OUT=$root/out$w runcheck $p -timeout ${SELFTEST_TIMEOUT:-10} -no-evidence > $log 2>&1; rc=$?
     git -C $wt checkout -q -- .
     n=$(grep -c '^VIOLATION' $log)
     first=$(grep -m1 'FAILED' $log | awk '{print $NF}')
